@@ -85,6 +85,18 @@ class DecoderRun:
             k = self.reads
             self.reads += 1
             src = I.value_of_ref(fr, args[1])
+            if isinstance(src, exp.Ref):
+                src = fr._project(fr.store.get(src.root, TOP), src.proj)
+            if k == 0:
+                lost = []
+                if isinstance(src, Agg):
+                    for i, x in enumerate(src.items):
+                        cl = getattr(x, 'cleared', 0) if isinstance(x, KBits) else 0
+                        if cl:
+                            lost.append((i, cl))
+                else:
+                    lost.append(('source-not-tracked', repr(src)[:60]))
+                pth.events.append(('source-bits-discarded', lost, where))
             pth.events.append(('read_be', k, where))
             fr.store_through(args[0], ('repr', k))
             fr.storev(dest, ('io_ok', k))
